@@ -1,7 +1,7 @@
 from checks import _level2
 from oracles import level2 as oracle
 
-GEN = []
+GEN = ["Tol"]
 LEAN_TARGETS = ["MagpyVerif.Props.C06"]
 PROPS = ["MagpyVerif.Props.C06"]
 NOT_SHOWN = {
